@@ -292,8 +292,9 @@ def _world(ctx, env, problem, sub, need, symbolic):
         )
         W.act = InstantaneousAction("act", _env=env, y=T, qn=tm.IntType(0, 5))
         W.y, W.qn = em.ParameterExp(W.act.parameter("y")), em.ParameterExp(W.act.parameter("qn"))
-        W.vars = [Variable("x1", T, env), Variable("x2", T, env), Variable("x3", T, env)]
-        W.svars = [Variable("xs1", S, env), Variable("xs2", S, env), Variable("xs3", S, env)]
+        # one variable per nesting depth (+2: `exists2` binds two, `xnn` names the one after next); the thorough tier nests 4 deep
+        W.vars = [Variable(f"x{i}", T, env) for i in range(1, 8)]
+        W.svars = [Variable(f"xs{i}", S, env) for i in range(1, 8)]
         W.z = Variable("z", T, env)
         from collections import OrderedDict
 
